@@ -1,4 +1,5 @@
 use serde::Deserialize;
+use serde::de::DeserializeOwned;
 use toml::value::Table;
 
 #[derive(Debug, Deserialize)]
@@ -21,16 +22,18 @@ impl Entry {
     ///
     /// # Errors
     /// This will return an error if it's not possible to serialize from a TOML Table into a T
-    pub fn metadata<'de, T>(&self) -> Result<T, toml::de::Error>
+    pub fn metadata<T>(&self) -> Result<T, toml::de::Error>
     where
-        T: Deserialize<'de>,
+        T: DeserializeOwned,
     {
-        // All toml `Value`s have `try_into()` which converts them to a `T` if `Deserialize` and
-        // `Deserializer` is implemented for `T`. Sadly, the `Table` type we use in `Entry` is not
-        // a `Value` so we need to make it one by wrapping it. We can't wrap directly in `Entry`
-        // since that would allow users to put non-table TOML values as metadata. As outlined
-        // earlier, we can't get around the clone since we're only borrowing the metadata.
-        toml::Value::Table(self.metadata.clone()).try_into()
+        // `toml::Value::try_into()` cannot be used here: the `Deserializer` implementation of
+        // `toml::Value` hands TOML datetimes to the visitor as plain strings, so a datetime in the
+        // metadata would silently turn into a string (or fail to deserialize into a
+        // `toml::value::Datetime` field). Going through the document text keeps every value kind.
+        let document = toml::to_string(&self.metadata)
+            .map_err(<toml::de::Error as serde::de::Error>::custom)?;
+
+        toml::from_str(&document)
     }
 }
 
